@@ -278,8 +278,9 @@ impl Check for C01 {
 	fn extra_evidence(&self, _tier: Tier) -> Vec<(String, J)> {
 		vec![("f3_alphabet".into(), J::arr_str(F3_LETTERS.iter().map(|s| s.to_string()))), ("extremes".into(), J::arr_str(EXTREMES.iter().map(|s| s.to_string())))]
 	}
-	fn case_timeout_ms(&self, _tier: Tier) -> u64 {
-		300_000
+	fn case_timeout_ms(&self, tier: Tier) -> u64 {
+		// (a case normally takes a second or two; a change that makes a decoder thread or a callback spin costs one limit per case)
+		tier.pick(45_000, 300_000)
 	}
 	fn run_case(&self, tier: Tier, idx: u64, ctx: &mut Ctx) {
 		if idx > f1_cases() + fx_cases() + f2_cases() + f3_cases() {
